@@ -152,10 +152,28 @@ theorem rules_never_panic (E : Ext) (t : Trace) (s : Span) (c : Cond) :
       · simp [spanAfterLoop_eq]
     · simp
 
-/-- **num_descendants_trace_level** — `?.NUM_DESCENDANTS` is the number of spans of the trace,
-whichever span is being looked at. -/
+/-- number of elements of the trace of one kind -/
+def countKind (t : Trace) (k : Kind) : Nat := (t.spans.filter (·.kind == k)).length
+
+theorem length_eq_counts (l : List Span) :
+    l.length = (l.filter (·.kind == .span)).length + (l.filter (·.kind == .event)).length +
+      (l.filter (·.kind == .link)).length := by
+  induction l with
+  | nil => rfl
+  | cons s l ih =>
+    simp only [List.length_cons, List.filter_cons]
+    cases hk : s.kind <;> simp [ih] <;> omega
+
+/-- **num_descendants_trace_level** — `?.NUM_DESCENDANTS` is the number of *all* elements of the
+trace — ordinary spans, span events and links together ("the current number of child elements
+contained within a trace") — whichever span is being looked at; it is not the number of ordinary
+spans. -/
 theorem num_descendants_trace_level (E : Ext) (t : Trace) (s : Span) (c : Cond) (h : isNumDescendants c = true) :
-    extract E t s c = ⟨.int t.spans.length, true, true⟩ := by
+    extract E t s c =
+      ⟨.int ((countKind t .span + countKind t .event + countKind t .link : Nat) : Int), true, true⟩ := by
+  have := length_eq_counts t.spans
+  simp only [countKind]
+  rw [← this]
   simp [extract, h]
 
 theorem rootPrefix_toList : rootPrefix.toList = ['r', 'o', 'o', 't', '.'] := by decide
@@ -631,7 +649,7 @@ def goExt : Ext where
   rxMatch p s := p = "nil" ∧ s = "<nil>"
 
 /-- a trace of one span `{a: "x"}`, which is also its root -/
-def oneSpan : Trace := { spans := [⟨[("a", .str "x")]⟩], root := some ⟨[("a", .str "x")]⟩ }
+def oneSpan : Trace := { spans := [(Span.of [("a", .str "x")])], root := some (Span.of [("a", .str "x")]) }
 
 /-- condition on the field `zz`, which `oneSpan` does not have -/
 def onZZ (op : Op) (dt : DT) (v : Val) (items : Option (List Val) := none) : Cond :=
@@ -650,26 +668,26 @@ theorem absent_never_matches_refuted : ¬ AbsentNeverMatches := by
 /-- One witness per operator class for which an absent field matches (each was reproduced on the
 real sampler, see corpus/C08): the absent value is coerced to the string "<nil>". -/
 theorem absent_matches_string_compare :
-    condOnSpan goExt oneSpan (onZZ .neq .str (.str "x")) ⟨[("a", .str "x")]⟩ = true ∧
-    condOnSpan goExt oneSpan (onZZ .eq .str (.str "<nil>")) ⟨[("a", .str "x")]⟩ = true ∧
-    condOnSpan goExt oneSpan (onZZ .lt .str (.str "a")) ⟨[("a", .str "x")]⟩ = true ∧
-    condOnSpan goExt oneSpan (onZZ .lte .str (.str "a")) ⟨[("a", .str "x")]⟩ = true ∧
-    condOnSpan goExt oneSpan (onZZ .gt .str (.str "")) ⟨[("a", .str "x")]⟩ = true ∧
-    condOnSpan goExt oneSpan (onZZ .gte .str (.str "")) ⟨[("a", .str "x")]⟩ = true := by decide
+    condOnSpan goExt oneSpan (onZZ .neq .str (.str "x")) (Span.of [("a", .str "x")]) = true ∧
+    condOnSpan goExt oneSpan (onZZ .eq .str (.str "<nil>")) (Span.of [("a", .str "x")]) = true ∧
+    condOnSpan goExt oneSpan (onZZ .lt .str (.str "a")) (Span.of [("a", .str "x")]) = true ∧
+    condOnSpan goExt oneSpan (onZZ .lte .str (.str "a")) (Span.of [("a", .str "x")]) = true ∧
+    condOnSpan goExt oneSpan (onZZ .gt .str (.str "")) (Span.of [("a", .str "x")]) = true ∧
+    condOnSpan goExt oneSpan (onZZ .gte .str (.str "")) (Span.of [("a", .str "x")]) = true := by decide
 
 theorem absent_matches_string_ops :
-    condOnSpan goExt oneSpan (onZZ .contains .none (.str "nil")) ⟨[("a", .str "x")]⟩ = true ∧
-    condOnSpan goExt oneSpan (onZZ .startsWith .int (.str "<ni")) ⟨[("a", .str "x")]⟩ = true ∧
-    condOnSpan goExt oneSpan (onZZ .doesNotContain .none (.str "x")) ⟨[("a", .str "x")]⟩ = true ∧
-    condOnSpan goExt oneSpan (onZZ .regex .none (.str "nil")) ⟨[("a", .str "x")]⟩ = true := by decide
+    condOnSpan goExt oneSpan (onZZ .contains .none (.str "nil")) (Span.of [("a", .str "x")]) = true ∧
+    condOnSpan goExt oneSpan (onZZ .startsWith .int (.str "<ni")) (Span.of [("a", .str "x")]) = true ∧
+    condOnSpan goExt oneSpan (onZZ .doesNotContain .none (.str "x")) (Span.of [("a", .str "x")]) = true ∧
+    condOnSpan goExt oneSpan (onZZ .regex .none (.str "nil")) (Span.of [("a", .str "x")]) = true := by decide
 
 theorem absent_matches_in_ops :
-    condOnSpan goExt oneSpan (onZZ .isIn .none (.str "<nil>")) ⟨[("a", .str "x")]⟩ = true ∧
-    condOnSpan goExt oneSpan (onZZ .isIn .str (.other "l") (some [.str "a", .str "<nil>"])) ⟨[("a", .str "x")]⟩ = true ∧
-    condOnSpan goExt oneSpan (onZZ .notIn .none (.str "x")) ⟨[("a", .str "x")]⟩ = true ∧
-    condOnSpan goExt oneSpan (onZZ .notIn .str (.str "x")) ⟨[("a", .str "x")]⟩ = true ∧
-    condOnSpan goExt oneSpan (onZZ .notIn .int (.int 5)) ⟨[("a", .str "x")]⟩ = true ∧
-    condOnSpan goExt oneSpan (onZZ .notIn .float (.int 5)) ⟨[("a", .str "x")]⟩ = true := by decide
+    condOnSpan goExt oneSpan (onZZ .isIn .none (.str "<nil>")) (Span.of [("a", .str "x")]) = true ∧
+    condOnSpan goExt oneSpan (onZZ .isIn .str (.other "l") (some [.str "a", .str "<nil>"])) (Span.of [("a", .str "x")]) = true ∧
+    condOnSpan goExt oneSpan (onZZ .notIn .none (.str "x")) (Span.of [("a", .str "x")]) = true ∧
+    condOnSpan goExt oneSpan (onZZ .notIn .str (.str "x")) (Span.of [("a", .str "x")]) = true ∧
+    condOnSpan goExt oneSpan (onZZ .notIn .int (.int 5)) (Span.of [("a", .str "x")]) = true ∧
+    condOnSpan goExt oneSpan (onZZ .notIn .float (.int 5)) (Span.of [("a", .str "x")]) = true := by decide
 
 /-- The consequence at rule level: a trace-scoped rule `zz does-not-contain "x"` applies to a trace
 in which no span has `zz`. -/
@@ -828,7 +846,7 @@ theorem absent_rule_does_not_apply_partial (E : Ext) (t : Trace) (conds : List C
 /-! ## non-vacuity: concrete rule lists and traces, evaluated by the kernel -/
 
 def tr2 : Trace :=
-  { spans := [⟨[("a", .int 5)]⟩, ⟨[("b", .str "x")]⟩], root := some ⟨[("a", .int 5)]⟩ }
+  { spans := [(Span.of [("a", .int 5)]), (Span.of [("b", .str "x")])], root := some (Span.of [("a", .int 5)]) }
 
 -- trace scope: two conditions matched by two different spans
 example : matchTrace goExt tr2 [{ field := "a", op := .eq, val := .int 5 }, { field := "b", op := .ex }] = true := by decide
@@ -837,8 +855,8 @@ example : matchSpan goExt tr2 [{ field := "a", op := .eq, val := .int 5 }, { fie
 -- root. prefix: every span sees the root's `a`
 example : matchSpan goExt tr2 [{ field := "root.a", op := .eq, val := .int 5 }, { field := "b", op := .ex }] = true := by decide
 -- Fields: first present wins (`b` on the second span, `a` on the first)
-example : (extract goExt tr2 ⟨[("b", .str "x")]⟩ { fields := ["zz", "b", "root.a"], op := .ex }).val = .str "x" := by decide
-example : (extract goExt tr2 ⟨[("a", .int 5)]⟩ { fields := ["zz", "b", "root.a"], op := .ex }) = ⟨.int 5, true, false⟩ := by decide
+example : (extract goExt tr2 (Span.of [("b", .str "x")]) { fields := ["zz", "b", "root.a"], op := .ex }).val = .str "x" := by decide
+example : (extract goExt tr2 (Span.of [("a", .int 5)]) { fields := ["zz", "b", "root.a"], op := .ex }) = ⟨.int 5, true, false⟩ := by decide
 -- ?.NUM_DESCENDANTS
 example : matchTrace goExt tr2 [{ field := "?.NUM_DESCENDANTS", op := .eq, val := .int 2 }] = true := by decide
 -- first match wins; drop; rate
@@ -856,22 +874,26 @@ example : absentSafe (onZZ .eq .int (.int 5)) = true ∧ absentSafe (onZZ .notIn
 /-! ### CheckNestedFields -/
 
 def trN : Trace :=
-  { spans := [⟨[("a", .int 1)]⟩, ⟨[("c", .other "M")]⟩], root := none, nested := true,
+  { spans := [(Span.of [("a", .int 1)]), (Span.of [("c", .other "M")])], root := none, nested := true,
     maps := [("M", [("status", .int 200), ("x", .other "Mx")]), ("Mx", [("y", .str "deep")])] }
 
 def jsExt : Ext := { goExt with jsonStr := fun v => match v with | .int 200 => "200" | .str s => s | _ => "?" }
 
 -- a dotted path into a nested map (depth 1 and depth 2), only on the span that has it
-example : extract jsExt trN ⟨[("c", .other "M")]⟩ { field := "c.status", op := .ex } = ⟨.str "200", true, false⟩ := by decide
-example : extract jsExt trN ⟨[("c", .other "M")]⟩ { field := "c.x.y", op := .ex } = ⟨.str "deep", true, false⟩ := by decide
-example : extract jsExt trN ⟨[("a", .int 1)]⟩ { field := "c.x.y", op := .ex } = ⟨.nil, false, false⟩ := by decide
+example : extract jsExt trN (Span.of [("c", .other "M")]) { field := "c.status", op := .ex } = ⟨.str "200", true, false⟩ := by decide
+example : extract jsExt trN (Span.of [("c", .other "M")]) { field := "c.x.y", op := .ex } = ⟨.str "deep", true, false⟩ := by decide
+example : extract jsExt trN (Span.of [("a", .int 1)]) { field := "c.x.y", op := .ex } = ⟨.nil, false, false⟩ := by decide
 -- flat first: a flat field wins over a nested one that comes earlier in Fields
-example : extract jsExt trN ⟨[("c", .other "M"), ("a", .int 1)]⟩ { fields := ["c.status", "a"], op := .ex } = ⟨.int 1, true, false⟩ := by decide
+example : extract jsExt trN (Span.of [("c", .other "M"), ("a", .int 1)]) { fields := ["c.status", "a"], op := .ex } = ⟨.int 1, true, false⟩ := by decide
 -- no root span: a `root.` field is absent (and nothing panics)
-example : extractP jsExt trN ⟨[("c", .other "M")]⟩ { field := "root.c.status", op := .ex } = some ⟨.nil, false, false⟩ := by decide
+example : extractP jsExt trN (Span.of [("c", .other "M")]) { field := "root.c.status", op := .ex } = some ⟨.nil, false, false⟩ := by decide
 -- with the option off the nested value is not looked for
-example : extract jsExt { trN with nested := false } ⟨[("c", .other "M")]⟩ { field := "c.status", op := .ex } = ⟨.nil, false, false⟩ := by decide
+example : extract jsExt { trN with nested := false } (Span.of [("c", .other "M")]) { field := "c.status", op := .ex } = ⟨.nil, false, false⟩ := by decide
 -- the typed matcher then sees the JSON text "200"
 example : matchTrace jsExt trN [{ field := "c.status", op := .eq, val := .str "200", dt := .str }] = true := by decide
+
+-- two ordinary spans, a span event and a link: ?.NUM_DESCENDANTS is 4, not 2
+example : matchTrace goExt { spans := [Span.mk [] .span, Span.mk [] .event, Span.mk [] .link, Span.mk [] .span], root := none }
+    [{ field := "?.NUM_DESCENDANTS", op := .gt, val := .int 2, dt := .int }] = true := by decide
 
 end Refinery.Props.C08
